@@ -39,12 +39,21 @@ func c11History(s *sess) []func() {
 	}
 }
 
-func c11Scenario(p c11Params) Scenario {
+func c11Scenario(p c11Params) Scenario { return vsScenario(c11Spec(p, false)) }
+
+// c11Spec builds the disconnect scenario. With mapMonitor the package must be built
+// with memory-access tracking (vinst -hb): the happens-before monitor then reports
+// unsynchronised concurrent access to Go maps, which the runtime answers with a
+// fatal error (used by C06).
+func c11Spec(p c11Params, mapMonitor bool) *VsSpec {
 	var s *sess
 	var by *Cli
 	var byOK bool
 	var byStream int
 	body := func() {
+		if mapMonitor {
+			vs.EnableHB()
+		}
 		s = newSess(SrvOpt{Msize: 256, Dotu: p.Dotu, Maxpend: p.Maxpend})
 		by = s.h.Connect()
 		ver := "9P2000"
@@ -160,9 +169,29 @@ func c11Scenario(p c11Params) Scenario {
 		}
 		return nil
 	}, nil)
-	return vsScenario(&VsSpec{Name: p.name(), Body: body, Check: check, P: p.P, Sample: func() any {
+	if mapMonitor {
+		inner := check
+		check = func(x *vs.Exec) *Viol {
+			for _, r := range x.Races() {
+				if strings.HasPrefix(r.SiteA, "map@") && strings.HasPrefix(r.SiteB, "map@") && (r.WriteA || r.WriteB) {
+					a, b := r.SiteA, r.SiteB
+					if a > b {
+						a, b = b, a
+					}
+					return &Viol{Sig: "C06/concurrent-map-access/" + a + "/" + b, Msg: "unsynchronised concurrent access to a Go map while a client disconnects with requests in flight - the Go runtime aborts the whole process with 'fatal error: concurrent map read/iteration and map write': " + r.String()}
+				}
+			}
+			if v := inner(x); v != nil && strings.HasPrefix(v.Sig, "C11/panic/") {
+				v.Sig = "C06" + v.Sig[3:]
+				return v
+			}
+			return nil
+		}
+		return &VsSpec{Name: "map-monitor " + p.name(), Body: body, Check: check, P: p.P, Delay: true}
+	}
+	return &VsSpec{Name: p.name(), Body: body, Check: check, P: p.P, Sample: func() any {
 		return map[string]any{"fslog_tail": tail(strings.Split(s.fs.logString(), "\n"), 12)}
-	}})
+	}}
 }
 
 func tail(s []string, n int) []string {
